@@ -138,12 +138,28 @@ def nonsingular_note(ctx):
     pass
 
 
-def committor_job(n, sources, sinks, zero_pattern=None, reversible=None):
+def lay(A, layout):
+    """the same matrix in another memory layout: 'F' column-major (what a transposed / time-reversed chain is), 'view' a
+    non-contiguous window of a larger buffer"""
+    if layout == 'F':
+        return A.T.copy().T
+    if layout == 'view':
+        n, m = A.shape
+        if isinstance(A, SArr):
+            big = funcs.np_zeros((n, 2 * m), dtype=float)
+        else:
+            big = np.zeros((n, 2 * m), dtype=float)
+        big[:, ::2] = A
+        return big[:, ::2]
+    return A
+
+
+def committor_job(n, sources, sinks, zero_pattern=None, reversible=None, layout='C'):
     tc = loader.load('enspara.tpt.core')
 
     def path(ctx):
         T, pi = sym_stochastic(ctx, n, zero_pattern, reversible=reversible)
-        A = funcs.np_array(T, dtype=float)
+        A = lay(funcs.np_array(T, dtype=float), layout)
         A0 = A.copy()
         exc = None
         try:
@@ -154,8 +170,8 @@ def committor_job(n, sources, sinks, zero_pattern=None, reversible=None):
 
         def witness(model):
             Tc = model_matrix(model, T)
-            out = {'inputs': {'tprob': Tc, 'sources': list(sources), 'sinks': list(sinks)}}
-            Ac = np.array(Tc)
+            out = {'inputs': {'tprob': Tc, 'sources': list(sources), 'sinks': list(sinks), 'memory_layout': layout}}
+            Ac = lay(np.array(Tc), layout)
             with core.concrete_mode():
                 try:
                     qc = tc.committors(Ac, list(sources), list(sinks))
@@ -178,14 +194,14 @@ def committor_job(n, sources, sinks, zero_pattern=None, reversible=None):
     return path
 
 
-def mfpt_job(n, sinks=None, zero_pattern=None, given_pops=True):
+def mfpt_job(n, sinks=None, zero_pattern=None, given_pops=True, layout='C'):
     tc = loader.load('enspara.tpt.core')
 
     def path(ctx):
         T, pi = sym_stochastic(ctx, n, zero_pattern, reversible=False)
         lag = core.fresh_real('lag')
         ctx.add(core.to_z3_real(lag) > 0)
-        A = funcs.np_array(T, dtype=float)
+        A = lay(funcs.np_array(T, dtype=float), layout)
         A0 = A.copy()
         P = funcs.np_array(pi, dtype=float) if pi is not None else None
         exc = None
@@ -212,8 +228,8 @@ def mfpt_job(n, sinks=None, zero_pattern=None, given_pops=True):
         def witness(model):
             Tc = model_matrix(model, T)
             lc = fl(ev(model, lag))
-            out = {'inputs': {'tprob': Tc, 'sinks': list(sinks) if sinks is not None else None, 'lagtime': lc}}
-            Ac = np.array(Tc)
+            out = {'inputs': {'tprob': Tc, 'sinks': list(sinks) if sinks is not None else None, 'lagtime': lc, 'memory_layout': layout}}
+            Ac = lay(np.array(Tc), layout)
             pc = np.array([fl(ev(model, p)) for p in pi]) if pi is not None else None
             if pc is not None:
                 out['inputs']['populations'] = pc.tolist()
